@@ -412,8 +412,51 @@ fn classify_false_accept(rej: Rej) -> Option<&'static str> {
     }
 }
 
+/// a value nested around the limits (32 arrays, 32 structs, 64 in total), also through variants
+/// and with a completed sibling in front of the deep child
+pub fn gen_deep(src: &mut Src) -> RVal {
+    let a = *src.pick(&[0usize, 1, 2, 30, 31, 32, 33, 34]);
+    let s = *src.pick(&[0usize, 1, 2, 30, 31, 32, 33, 34]);
+    let v = *src.pick(&[0usize, 1, 2, 3, 30, 31]);
+    let mut kinds: Vec<u8> = vec![];
+    kinds.extend(std::iter::repeat(b'a').take(a));
+    kinds.extend(std::iter::repeat(b'(').take(s));
+    kinds.extend(std::iter::repeat(b'v').take(v));
+    kinds.truncate(70);
+    for i in (1..kinds.len()).rev() {
+        let j = src.below(i + 1);
+        kinds.swap(i, j);
+    }
+    let sib_at = if kinds.is_empty() { 0 } else { src.below(kinds.len()) };
+    let with_sib = src.bool();
+    fn empty_like(v: &RVal) -> RVal {
+        match v {
+            RVal::A(e, _) => RVal::A(e.clone(), vec![]),
+            RVal::St(f) => RVal::St(f.iter().map(empty_like).collect()),
+            RVal::V(b) => RVal::V(Box::new((b.0.clone(), empty_like(&b.1)))),
+            x => x.clone(),
+        }
+    }
+    let mut val = RVal::Y(7);
+    for (lvl, k) in kinds.iter().enumerate().rev() {
+        val = match k {
+            b'a' if with_sib && lvl == sib_at => RVal::A(val.sig(), vec![empty_like(&val), val]),
+            b'a' => RVal::A(val.sig(), vec![val]),
+            b'(' if with_sib && lvl == sib_at => RVal::St(vec![RVal::A(RSig::Y, vec![RVal::Y(1)]), val]),
+            b'(' => RVal::St(vec![val]),
+            _ => RVal::V(Box::new((val.sig(), val))),
+        };
+    }
+    val
+}
+
 pub fn c03_case(src: &mut Src, obs: &mut Obs) -> CaseResult {
-    let (s0, v0) = gen_typed(src, &so(), &ValOpts::default());
+    let (mut s0, mut v0) = gen_typed(src, &so(), &ValOpts::default());
+    if src.chance(16) {
+        v0 = gen_deep(src);
+        s0 = v0.sig();
+        obs.label("deep-nesting");
+    }
     let big = src.bool();
     let off = src.below(16);
     // top-level decode target: as variant, or the type itself (wrap dict in a struct)
